@@ -11,34 +11,36 @@ open Tranp Tranp.CacheFS
 
 /-! ### C05.tree_key — the syntax-tree cache -/
 
-/-- Along every history of edits (fresh mtime per edit), runs, cache deletions, truncations and enable/disable switches that
+/-- Along every history of edits (fresh mtime per edit), grammar changes (fresh grammar mtime), runs, cache deletions, truncations and enable/disable
+    switches that
     starts from an empty project and cache, every tree a run obtains — from the cache or not — is the fresh parse of the
-    module's current source: identity (grammar mtime, source mtime) determines the source. -/
-theorem tree_key (S : Sem) (H : Hyp S) (w0 : World) (hc : w0.cache = []) (hs : w0.srcs = []) (hist : List Op)
-    (hok : ∀ op ∈ hist, OpOK op) (force : Bool) (k t : Str) (hkt : (k, t) ∈ (run S (exec S w0 hist) force).trees) :
-    ∃ sf, (exec S w0 hist).srcs.get? k = some sf ∧ t = S.parse sf.data :=
-  (run_TS H _ force (exec_TInv H w0 hist hok (TInv.init w0 hc hs))).2.2.2.1 k t hkt
+    module's current source with the parser of the current setting: identity (grammar mtime, source mtime) determines both. -/
+theorem tree_key (S : Sem) (H : Hyp S) (w0 : World) (hc : w0.cache = []) (hs : w0.srcs = []) (hg : w0.grammarMtime < w0.clock)
+    (hist : List Op) (hok : ∀ op ∈ hist, OpOK op) (force : Bool) (k t : Str) (hkt : (k, t) ∈ (run S (exec S w0 hist) force).trees) :
+    ∃ sf, (exec S w0 hist).srcs.get? k = some sf ∧ t = S.parse ((exec S w0 hist).parserNow S) sf.data :=
+  (run_TS H _ force (exec_TInv H w0 hist hok (TInv.init w0 hc hs hg))).trees k t hkt
 
 /-- warm tree = cold tree -/
-theorem tree_key_warm_cold (S : Sem) (H : Hyp S) (w0 : World) (hc : w0.cache = []) (hs : w0.srcs = []) (hist : List Op)
-    (hok : ∀ op ∈ hist, OpOK op) (force : Bool) (k t t' : Str)
+theorem tree_key_warm_cold (S : Sem) (H : Hyp S) (w0 : World) (hc : w0.cache = []) (hs : w0.srcs = []) (hg : w0.grammarMtime < w0.clock)
+    (hist : List Op) (hok : ∀ op ∈ hist, OpOK op) (force : Bool) (k t t' : Str)
     (hw : (k, t) ∈ (run S (exec S w0 hist) force).trees) (hcold : (k, t') ∈ (run S (exec S w0 hist).clearCache force).trees) : t = t' := by
-  obtain ⟨sf, h1, rfl⟩ := tree_key S H w0 hc hs hist hok force k t hw
+  obtain ⟨sf, h1, rfl⟩ := tree_key S H w0 hc hs hg hist hok force k t hw
   have hcold' : (k, t') ∈ (run S (exec S w0 (hist ++ [.clear])) force).trees := by
     rw [exec_append]; exact hcold
-  obtain ⟨sf', h2, rfl⟩ := tree_key S H w0 hc hs (hist ++ [.clear])
+  obtain ⟨sf', h2, rfl⟩ := tree_key S H w0 hc hs hg (hist ++ [.clear])
     (fun op hop => by rcases List.mem_append.mp hop with h | h; exact hok op h; simp at h; subst h; trivial) force k t' hcold'
   rw [exec_append] at h2
   have : sf = sf' := by
     have h3 : (exec S w0 hist).srcs.get? k = some sf' := h2
     rw [h1] at h3; exact Option.some.inj h3
-  rw [this]
+  rw [this, exec_append]
+  rfl
 
 /-- non-vacuity: a real history satisfies the hypotheses, and the second run takes `b`'s tree from the cache -/
 example : Hyp cxSem ∧ (∀ op ∈ cxHist, OpOK op) ∧
     ((run cxSem (exec cxSem cxWorld cxHist) true).trees.length = 3 ∧
-     (run cxSem (exec cxSem cxWorld cxHist) true).log.contains ('r', treePath cxSem ['b'] 0 2)) = true :=
-  ⟨cxSem_hyp, cxHist_ok, by decide +kernel⟩
+     (run cxSem (exec cxSem cxWorld cxHist) true).log.contains ('r', treePath cxSem ['b'] 0 2)) = true ∧ cxWorld.grammarMtime < cxWorld.clock :=
+  ⟨cxSem_hyp, cxHist_ok, by decide +kernel, by decide⟩
 
 /-! ### C05.evict_safe — eviction by glob -/
 
@@ -72,7 +74,7 @@ example : findOldest [(['a', '-', 's', 'y', 'm', 'b', 'o', 'l', 's', '-', 'x', '
 
 /-- non-vacuity: the coherent, non-empty cache a real history leaves behind -/
 example : WS cxSem (exec cxSem cxWorld cxHist) ∧ (exec cxSem cxWorld cxHist).cache.length = 7 :=
-  ⟨exec_WS cxSem_hyp cxWorld cxHist cxHist_ok cxHist_acyclic (WS.init _ rfl rfl), by decide +kernel⟩
+  ⟨exec_WS cxSem_hyp cxWorld cxHist cxHist_ok cxHist_plain.1 cxHist_acyclic (WS.init _ rfl rfl (by decide)), by decide +kernel⟩
 
 /-! ### C05.truncate — interrupted writes -/
 
@@ -92,20 +94,20 @@ example :
   intro k hk
   exact truncate _ rfl k (by simpa [show (JsonText.print (.obj [(['a'], .arr [.num ['1'], .str ['}']])])).length = 13 from by decide +kernel] using hk)
 
-/-! ### C05.symbols — the symbol cache (closure-keyed identity, a383b4a) -/
+/-! ### C05.symbols — the symbol cache (closure identity, a383b4a / c3eaa55) -/
 
 /-- For every semantics with injective digests, every import graph and every history of edits, runs, deletions, truncations
     and enable/disable switches from an empty project and cache in which no analysis runs inside an import cycle: the symbol
     table a run uses for a module — restored from whatever earlier runs left behind or analysed now — equals the one the
-    same run computes from an empty cache directory. (`Module.identity` digests the identities of the direct imports, hence
-    the whole import closure: `id_covers`.) -/
-theorem symbols (S : Sem) (H : Hyp S) (w0 : World) (hc : w0.cache = []) (hs : w0.srcs = []) (hist : List Op)
-    (hok : ∀ op ∈ hist, OpOK op) (hac : Acyclic S w0 hist) (force : Bool)
+    same run computes from an empty cache directory. (`Module.identity` digests the (file, hash) pairs of the whole import
+    closure, collected with a visited dict: `collect_closure`, `id_covers`.) -/
+theorem symbols (S : Sem) (H : Hyp S) (w0 : World) (hc : w0.cache = []) (hs : w0.srcs = []) (hg : w0.grammarMtime < w0.clock)
+    (hist : List Op) (hok : ∀ op ∈ hist, OpOK op) (hng : ∀ op ∈ hist, NoGrammar op) (hac : Acyclic S w0 hist) (force : Bool)
     (h1 : (run S (exec S w0 hist) force).cyc = false) (h2 : (run S (exec S w0 hist).clearCache force).cyc = false)
     (k t t' : Str) (hw : (k, t) ∈ (run S (exec S w0 hist) force).db) (hcold : (k, t') ∈ (run S (exec S w0 hist).clearCache force).db) :
     t = t' := by
-  have hW := exec_WS H w0 hist hok hac (WS.init w0 hc hs)
-  have hC : WS S (exec S w0 hist).clearCache := step_WS H _ .clear trivial trivial hW
+  have hW := exec_WS H w0 hist hok hng hac (WS.init w0 hc hs hg)
+  have hC : WS S (exec S w0 hist).clearCache := step_WS H _ .clear trivial trivial trivial hW
   have e1 := (((run_SS H _ force hW).2 h1).2.2 k t hw).1
   have e2 := (((run_SS H _ force hC).2 h2).2.2 k t' hcold).1
   exact tab_det e1 t' e2
@@ -113,24 +115,113 @@ theorem symbols (S : Sem) (H : Hyp S) (w0 : World) (hc : w0.cache = []) (hs : w0
 /-- non-vacuity and regression (the history that refuted the law before a383b4a: chain a → b → c, build, edit `c`, build):
     the hypotheses hold, `b`'s and `c`'s tables are rebuilt, and `a` — re-analysed because its identity now changes with `c` —
     sees the new `c` through `b`, warm exactly as cold -/
-example : Hyp cxSem ∧ Acyclic cxSem cxWorld cxHist ∧
+example : Hyp cxSem ∧ Acyclic cxSem cxWorld cxHist ∧ (∀ op ∈ cxHist, NoGrammar op) ∧
     ((run cxSem (exec cxSem cxWorld cxHist) true).cyc = false ∧ (run cxSem (exec cxSem cxWorld cxHist).clearCache true).cyc = false ∧
      List.lookup ['a'] (run cxSem (exec cxSem cxWorld cxHist) true).db = some [c4, c3, c2, '}'] ∧
      (run cxSem (exec cxSem cxWorld cxHist) true).out = (run cxSem (exec cxSem cxWorld cxHist).clearCache true).out) := by
-  refine ⟨cxSem_hyp, cxHist_acyclic, ?_⟩
+  refine ⟨cxSem_hyp, cxHist_acyclic, cxHist_plain.1, ?_⟩
   decide +kernel
 
-/-- The reason, for every semantics, graph and depth: equal closure-keyed identities imply equal cache-free symbol tables
-    (functional form of `id_covers`). -/
-theorem symbols_partial_closure (S : Sem) (H : Hyp S) (src src' : Str → Str) (f : Nat) (k : Str)
-    (h : mid S src f k = mid S src' f k) : symPure S src f k = symPure S src' f k :=
-  mid_covers H src src' f k h
+/-- The reason, for every semantics and every pair of source states: an identity is the digest of the (file, hash) pairs of
+    an import-closed set of files containing the module (`IsIdC`; what `__collect_hashes` collects: `collect_closure`), so
+    equal identities mean equal files over the whole import closure, hence equal cache-free symbol tables. -/
+theorem symbols_partial_closure (S : Sem) (H : Hyp S) (pz : Str) (srcs srcs' : Dir) (k I t t' : Str)
+    (h1 : IsIdC S pz srcs k I) (h2 : IsIdC S pz srcs' k I) (ht : IsTab S pz srcs k t) (ht' : IsTab S pz srcs' k t') : t = t' :=
+  id_covers H h1 h2 ht ht'
 
-/-- non-vacuity: on the chain the cache-free symbols of `a` differ before and after the edit of `c`, hence so does `a`'s
-    closure-keyed identity -/
-example : symPure cxSem srcInt 3 ['a'] ≠ symPure cxSem srcStr 3 ['a'] ∧ mid cxSem srcInt 3 ['a'] ≠ mid cxSem srcStr 3 ['a'] := by
-  have h : symPure cxSem srcInt 3 ['a'] ≠ symPure cxSem srcStr 3 ['a'] := by decide +kernel
-  exact ⟨h, fun e => h (symbols_partial_closure cxSem cxSem_hyp srcInt srcStr 3 ['a'] e)⟩
+/-- non-vacuity: the leaf module `c` of the chain has an identity over its one-element closure -/
+example : IsIdC cxSem [] [(['c'], ⟨[c1], 0⟩)] ['c'] (identOf cxSem ['c'] [(['c'], [c1])] [c1]) := by
+  refine ⟨[(['c'], [c1])], ⟨[c1], 0⟩, ⟨⟨[c1], by simp⟩, ?_⟩, rfl, rfl⟩
+  intro d h hm
+  simp only [List.mem_singleton, Prod.mk.injEq] at hm
+  obtain ⟨rfl, rfl⟩ := hm
+  refine ⟨⟨[c1], 0⟩, rfl, rfl, fun e he => ?_⟩
+  have hnil : cxSem.importsOf (cxSem.parse [] [c1]) = [] := by decide
+  rw [hnil] at he; cases he
+
+/-- Import cycles: `__collect_hashes` keeps a visited dict, so the identity of a module inside a cycle is computed and the run
+    completes (here `a` and `b` import each other; the cycle flag is raised, both modules are transpiled, warm as cold). -/
+example :
+    let cyc : Sem := { cxSem with importsOf := fun tree => if tree = [c4, '}'] then [['b']] else if tree = [c3, '}'] then [['a']] else [] }
+    let w : World := exec cyc { order := [['a'], ['b']] } [.edit ['a'] [c4], .edit ['b'] [c3], .run true]
+    ((run cyc w true).err = none ∧ (run cyc w true).cyc = true ∧ (run cyc w true).out.length = 2 ∧ (run cyc w true).ids.length = 2 ∧
+      (run cyc w true).out = (run cyc w.clearCache true).out) := by
+  decide +kernel
+
+/-! ### C05.output_warm_cold — rendered text and failure status -/
+
+/-- **Output level.** For every semantics — in particular every renderer: the text of a module is `S.render` of the module's
+    tree and the symbol tables the session holds when the module is transpiled (its import closure and what was loaded
+    before, in load order) — every history of edits, runs, clears, deletions and enable/disable switches without an
+    interrupted write and without a grammar change, in which no analysis runs inside an import cycle: the run over the cache
+    directory as it is and the run over the emptied directory have the same cycle flag, and if it is clear they transpile the
+    same modules to the same texts and **fail or succeed alike** (same error), having loaded the same modules in the same
+    order with the same trees, identities and symbol tables. -/
+theorem output_warm_cold (S : Sem) (H : Hyp S) (w0 : World) (hc : w0.cache = []) (hs : w0.srcs = []) (hg : w0.grammarMtime < w0.clock)
+    (hist : List Op) (hok : ∀ op ∈ hist, OpOK op) (hng : ∀ op ∈ hist, NoGrammar op) (hnd : ∀ op ∈ hist, NoDamage op)
+    (hac : Acyclic S w0 hist) (force : Bool) :
+    (run S (exec S w0 hist) force).cyc = (run S (exec S w0 hist).clearCache force).cyc ∧
+    ((run S (exec S w0 hist) force).cyc = false →
+      (run S (exec S w0 hist) force).out = (run S (exec S w0 hist).clearCache force).out ∧
+      (run S (exec S w0 hist) force).err = (run S (exec S w0 hist).clearCache force).err ∧
+      (run S (exec S w0 hist) force).db = (run S (exec S w0 hist).clearCache force).db ∧
+      (run S (exec S w0 hist) force).trees = (run S (exec S w0 hist).clearCache force).trees ∧
+      (run S (exec S w0 hist) force).w.outs = (run S (exec S w0 hist).clearCache force).w.outs) := by
+  obtain ⟨hW, hV⟩ := exec_WV H w0 hist hok hng hnd hac (WS.init w0 hc hs hg) (VInv.init w0 hc)
+  have hr := run_warm_cold H (exec S w0 hist) force hW hV
+  exact ⟨hr.1, fun hcyc => ⟨(hr.2 hcyc).out, (hr.2 hcyc).err, (hr.2 hcyc).db, (hr.2 hcyc).trees, (hr.2 hcyc).frame.2.2.1.symm⟩⟩
+
+/-- non-vacuity: the chain history; the warm run restores `c`'s and re-analyses `b` and `a`, the cold run analyses all three -/
+example : Hyp cxSem ∧ (∀ op ∈ cxHist, NoGrammar op) ∧ (∀ op ∈ cxHist, NoDamage op) ∧ Acyclic cxSem cxWorld cxHist ∧
+    ((run cxSem (exec cxSem cxWorld cxHist) true).cyc = false ∧ (run cxSem (exec cxSem cxWorld cxHist) true).out.length = 3 ∧
+     (run cxSem (exec cxSem cxWorld cxHist) true).err = none ∧
+     (run cxSem (exec cxSem cxWorld cxHist) true).log ≠ (run cxSem (exec cxSem cxWorld cxHist).clearCache true).log) := by
+  refine ⟨cxSem_hyp, cxHist_plain.1, cxHist_plain.2, cxHist_acyclic, ?_⟩
+  decide +kernel
+
+/-- the failure side: `a` imports `b`, which has no file: the run over the cache of the first (failed) run fails exactly
+    as the run over an empty cache directory does -/
+example :
+    let hist : List Op := [.edit ['a'] [c4], .run true]
+    ((run cxSem (exec cxSem cxWorld hist) true).err = some .noSource ∧ (run cxSem (exec cxSem cxWorld hist).clearCache true).err = some .noSource ∧
+      (exec cxSem cxWorld hist).cache.length = 2) := by
+  decide +kernel
+
+/-! ### C05.parser_key — the pickled parser -/
+
+/-- Along every history (edits, grammar changes, runs, deletions, truncations, enable/disable) the parser a run works with —
+    taken from `parser.cache-<md5>.bin` or freshly built — is the one built from the current grammar path, start rule,
+    algorithm and grammar mtime; a cache file is consulted only under the name of exactly these four (`parser_inj`: another
+    path, start, algorithm or mtime is another file name), so a pickle is reused only when all four are unchanged. -/
+theorem parser_key (S : Sem) (H : Hyp S) (w0 : World) (hc : w0.cache = []) (hs : w0.srcs = []) (hg : w0.grammarMtime < w0.clock)
+    (hist : List Op) (hok : ∀ op ∈ hist, OpOK op) (force : Bool) :
+    (∀ pz, (run S (exec S w0 hist) force).parser = some pz →
+      pz = S.parserBlob (exec S w0 hist).grammar (exec S w0 hist).start (exec S w0 hist).algo (exec S w0 hist).grammarMtime) ∧
+    (∀ gp st al g gp' st' al' g', parserPath S gp st al g = parserPath S gp' st' al' g' → gp = gp' ∧ st = st' ∧ al = al' ∧ g = g') :=
+  ⟨(run_TS H _ force (exec_TInv H w0 hist hok (TInv.init w0 hc hs hg))).parser, fun _ _ _ _ _ _ _ _ h => parserPath_inj H h⟩
+
+/-- non-vacuity: after a grammar change the next run builds the parser anew (the old pickle is evicted, a new one written
+    under another name) and re-parses every module: 14 cache accesses, still 7 files -/
+example :
+    let hist := cxHist ++ [.run true, .grammar ['g', '2'], .run true]
+    ((∀ op ∈ hist, OpOK op) ∧ (exec cxSem cxWorld hist).cache.length = 7 ∧
+      (run cxSem (exec cxSem cxWorld (cxHist ++ [.run true, .grammar ['g', '2']])) true).log.length = 14) := by
+  refine ⟨fun op hop => ?_, by decide +kernel, by decide +kernel⟩
+  simp only [cxHist, List.cons_append, List.nil_append, List.mem_cons, List.not_mem_nil, or_false] at hop
+  rcases hop with rfl | rfl | rfl | rfl | rfl | rfl | rfl | rfl <;> first | trivial | (exact ⟨by decide, by decide⟩)
+
+/-- A truncated pickle is a load failure, never another parser: if the file named by the current setting does not decode
+    (a proper prefix, `Hyp.prefix_invalid`), obtaining the parser fails with the load error and no parser is set. -/
+theorem parser_truncated (S : Sem) (s : Sess) (f : File) (hen : s.w.enabled = true) (hnone : s.parser = none)
+    (hf : s.w.cache.get? (parserPath S s.w.grammar s.w.start s.w.algo s.w.grammarMtime) = some f) (hbad : S.valid f.data = false) :
+    (parserGet S s).2 = none ∧ (parserGet S s).1.err = some .decodeBin ∧ (parserGet S s).1.parser = none := by
+  unfold parserGet cacheGet
+  have hf' : s.w.cache.get? (cachePath parserKey (S.parserIdent s.w.grammar s.w.start s.w.algo s.w.grammarMtime) binExt) = some f := hf
+  simp [hnone, hen, hf', hbad, Sess.fail, Sess.ev]
+
+example : ∃ (s : Sess) (f : File), s.w.enabled = true ∧ s.parser = none ∧
+    s.w.cache.get? (parserPath cxSem s.w.grammar s.w.start s.w.algo s.w.grammarMtime) = some f ∧ cxSem.valid f.data = false :=
+  ⟨{ w := { cache := [(parserPath cxSem [] [] [] 0, ⟨[], 0⟩)] } }, ⟨[], 0⟩, rfl, rfl, by decide +kernel, by decide⟩
 
 /-! ### C05.disabled — caching disabled (store gated on `enabled`, a3f0216) -/
 
